@@ -83,8 +83,11 @@ kws   = { (kw ~ ",")* ~ kw }
 op    = { "===" | "==" | "=>" | "=" | "<=" | "<" }
 cmp   = { id ~ op ~ (num | id) }
 rg    = { 'a'..'c' ~ 'x'..'z' ~ ('0'..'4')? }
+mix   = { "ab" | "a" | ASCII_DIGIT+ | "zz" | "z" }
+mixr  = { ("x" | "y" | 'a'..'c' | word | "_") ~ "!" }
 '''
 P_BUILTIN_CALLS = [
+    ("mix", "x"), ("mix", "a"), ("mix", "77"), ("mix", "zz"), ("mix", ""), ("mixr", "x!"), ("mixr", "b!"), ("mixr", "hello!"), ("mixr", "_!"), ("mixr", "?"), ("mixr", "x"),
     ("r", "x1"), ("r", "xa\n"), ("r", "xa"), ("word", "abc"), ("word", "1"), ("word", ""), ("num", "12.5"), ("num", "12."), ("num", "x"),
     ("hex", "0xfg"), ("hex", "0xg"), ("line", "ab 12 0x1f\n"), ("line", "ab 12 zz\n"), ("line", "ab"), ("nd", "ab1"), ("nd", "1"),
     ("up", "Ab"), ("up", "ab"), ("up", "ÉÀ"), ("anyline", "abc\n"), ("anyline", "abc"), ("alnum", "a1_"), ("alnum", "_"),
@@ -106,8 +109,10 @@ id    = @{ ("_" | ASCII_ALPHA) ~ ("_" | ASCII_ALPHANUMERIC)* }
 op    = { "=" | "==" | "===" | "<" | "<=" | "=>" }
 cmp   = { id ~ op ~ (num | id) }
 rg    = { #lo='a'..'c' ~ #hi='x'..'z' ~ (#dg='0'..'4')? }
+mix   = { "a" | "ab" | ASCII_DIGIT+ | "z" | "zz" }
+mixr  = { ("y" | "x" | 'a'..'c' | word | "_") ~ "!" }
 '''
-P_BUILTIN2_CALLS = [("kw", "abc"), ("kw", "ab"), ("kw", "bac"), ("kw", "c"), ("kws", "ab, a ,abc,bac"), ("kws", "abcc"), ("op", "==="), ("op", "<="), ("op", "=>"), ("cmp", "a === b"), ("cmp", "a <= 1"), ("cmp", "a == = b"), ("id", "_a1-"), ("word", "abc"), ("num", "12."), ("hex", "0xfg"), ("rg", "ax"), ("rg", "a1"), ("rg", "1"), ("rg", "cz4"), ("rg", "cz5x")]
+P_BUILTIN2_CALLS = [("mix", "x"), ("mix", "ab"), ("mix", "77"), ("mix", "zz"), ("mixr", "x!"), ("mixr", "b!"), ("mixr", "hello!"), ("mixr", "?"),("kw", "abc"), ("kw", "ab"), ("kw", "bac"), ("kw", "c"), ("kws", "ab, a ,abc,bac"), ("kws", "abcc"), ("op", "==="), ("op", "<="), ("op", "=>"), ("cmp", "a === b"), ("cmp", "a <= 1"), ("cmp", "a == = b"), ("id", "_a1-"), ("word", "abc"), ("num", "12."), ("hex", "0xfg"), ("rg", "ax"), ("rg", "a1"), ("rg", "1"), ("rg", "cz4"), ("rg", "cz5x")]
 
 P_TWIN1 = r'''
 WHITESPACE = _{ " " }
